@@ -27,6 +27,14 @@ CLAIMED["C19"] = dict(engine="server", technique="TLA+ model of the stream proto
 CLAIMED["C06"] = dict(engine="partition", technique="TLA+ model of key-id naming and the partition check (Partition.tla) evaluated by TLC over a token-built id universe; every pair executed on real sessions; outcomes validated by TLC",
     text="TLC evaluates the isolation predicate over every ordered pair of partition ids of a universe built from tokens that embed the separator, the _service_product suffix and region suffixes, for plain and region-suffixed naming on both sides; each pair is then executed for real (the producing session encrypts, the other session decrypts against the shared metastore) and TLC validates that no foreign record ever yields plaintext, own records decrypt, and empty ids are refused.",
     note="bounded id universe (<=2 tokens quick / <=3 tokens thorough); one service/product; region names without underscores", ref="5/C06, 4.6")
+CLAIMED.update({
+    "C03": env("The monitor applies the envelope-discipline clauses to every AEAD, KMS and metastore event of the real run: payload only under a secret freshly created by CreateRandom in the same call and never used before, no (key, nonce) pair twice, a data key wrapped only by an intermediate key, an intermediate key only by a system key; the harness searches every emitted artefact (record JSON, metastore rows, KMS requests, debug log lines) for plaintext key / payload bytes and the monitor turns a hit into a clause violation. Histories: TLC-generated (rotations, revocations, duplicate races) plus seeded long real histories (thousands of encrypts per key, 8 partitions, rotations).", "5/C03"),
+    "C09": env("The tracking SecretFactory logs every allocation / access / release; the monitor requires the data key of a call released before the call returns, nothing retained with caching off, at most one live secret per key and never more than the caches' capacities, every secret released exactly once and none touched afterwards when sessions and factory are closed. Histories: TLC-generated incl. rotations, revocations, metastore/KMS faults, duplicate races, capacity-1/2 caches of every policy, session cache, plus harness-injected allocation and AEAD failures.", "5/C09"),
+    "C10": env("The spying AEAD / KMS / secret factory retain every heap buffer that held plaintext key material (unwrap outputs, KMS decrypt output, the buffer handed to the secret factory when it fails) and the monitor requires them all-zero at operation return, on success and on every injected failure; the AWS plugins' GenerateDataKey / Decrypt plaintexts are checked the same way on every case KmsRegions.tla generates (KmsWipeTrace.tla).", "5/C10"),
+})
+CLAIMED["C17"] = dict(engine="kms", technique="TLA+ model of multi-region wrap/unwrap (KmsRegions.tla) checked by TLC; every generated case executed on the real v1/v2 plugins over fake regional clients; recorded runs validated by TLC",
+    text="TLC enumerates every case of the quantifier (region sets, preferred region, failing subsets at wrap and unwrap time, plugin pairs v1/v2 in both directions) and proves the C17 predicates for the design over all client orders; each case is executed on freshly built real plugins and the recorded run (success flags, envelope entries, per-region call order, identical bytes, data key wiped) is validated by TLC against the same predicates.",
+    note="regional KMS endpoints are fakes at the SDK client boundary; <=3 regions quick / <=4 thorough; order of non-preferred regions not controlled (Go map iteration)", ref="5/C17, 4.6")
 PENDING = {}
 
 def main():
